@@ -131,6 +131,11 @@ func (w *world) Run(t *rt.Tape, trace bool) *core.Result {
 	in := gen.Inputs(t, circ)
 	want := gen.Eval(circ, in)
 	tripleN := []int{0, 1, 63, 64, 65, 100, 127, 129, 1000, 4095, 4097}[t.Choose(rt.SGen, 11)]
+	if t.Choose(rt.SGen, 8) == 0 {
+		// more than the first batches of the shipped configuration hold (4096 + 8192 triples): the
+		// producer's third and later batches are handed out too
+		tripleN = []int{12289, 13000, 20481, 30000}[t.Choose(rt.SGen, 4)]
+	}
 
 	// Tuning knobs of the triple pool (half of the runs): with the low-water
 	// mark at a few words and batches of 1..8 words the refill protocol between
